@@ -422,6 +422,31 @@ def uninterpreted_raw(kind, w, o):
     return []
 
 
+def fixpoint_scenario(ctx, checks, kind, sample, data):
+    """second save and second delete leave the file byte-identical (no claim about padding or foreign elements)"""
+    def v(pid, what):
+        if pid in checks:
+            ctx.violation("oracle", "%s %s: %s" % (pid, kind.name, what), {"runner": "fam.fixpoint", "property": pid, "kind": kind.name, "sample": sample})
+    try:
+        cur = data
+        outs = []
+        for i in range(3):
+            b = io.BytesIO(cur); kind.open(io.BytesIO(cur)).save(b); cur = b.getvalue(); outs.append(cur)
+        ctx.count("c07:fixpoint-layout")
+        if outs[1] != outs[0] or outs[2] != outs[1]:
+            v("C07", "second save changes the file")
+        cur = data
+        outs = []
+        for i in range(3):
+            b = io.BytesIO(cur); kind.open(io.BytesIO(cur)).delete(b); cur = b.getvalue(); outs.append(cur)
+        if outs[1] != outs[0] or outs[2] != outs[1]:
+            v("C08", "second delete changes the file")
+    except mutagen.MutagenError:
+        return
+    except Exception as e:
+        v("C07", "load/save/delete of a well-formed layout raised %s" % type(e).__name__)
+
+
 def raw_unknown(kind, o):
     t = kind.tags_of(o)
     if kind.style == "id3":
@@ -488,6 +513,10 @@ def shared_run(ctx, checks, nhist, nops, kinds=None, id3_opts=True, corr_policy=
     for kname, kind in KINDS.items():
         if kinds and kname not in kinds:
             continue
+        if "C07" in checks or "C08" in checks:
+            from . import synth
+            for sample, data in synth.idempotence_layouts(kind, [(s_, d_) for s_, d_ in kind.samples() if not s_.startswith("synth")]):
+                fixpoint_scenario(ctx, checks, kind, sample, data)
         for si, (sample, data) in enumerate(usable_samples(kind)):
             if "C07" in checks:
                 c07_scenario(ctx, checks, kind, sample, data)
